@@ -11,7 +11,7 @@ use std::cmp::Ordering;
 
 pub const RULE: &str = "cases = ordered operand pairs (sign + 32-bit limb vectors, limbs weighted to 0/1/2^31/2^32-2/2^32-1, \
 shapes: independent, equal length, equal, negated, a±delta, shared top limbs, exact/near multiples, small divisor, zero) checked \
-for + - * / % neg == cmp gcd and the assign variants against the base-10^9 reference, plus machine integers for BigNum::new; \
+for + - * / % neg == != < <= > >= cmp gcd, the assign variants, the named functions (BigNum::add ...) and set_copy/set_move against the base-10^9 reference, plus machine integers for BigNum::new; \
 non-trivial = neither operand is 0 or ±1 and (both operands have >= 2 significant limbs or a boundary limb is present), \
 or a constructor argument with |n| >= 2^31; distinct = distinct (a, b) / n";
 
